@@ -444,11 +444,14 @@ def make_native(yp, unify, rows, arity, style, yield_value, ctl, name=None):
 # ------------------------------------------------------------------------------------
 # syntactic variety for the compiler-determinism check (programs are never run)
 
-def gen_compile_program(rng):
+def gen_compile_program(rng, big=False):
     preds = [(rng.choice(['p', 'q', 'r', 'foo', 'bar_baz', 'x1']), rng.randrange(0, 4)) for _ in range(rng.randrange(2, 6))]
+    if big:
+        # many predicates (size-dependent paths of the code generator: buffers, pools, tables)
+        preds = [('%s%d' % (rng.choice(['p', 'q', 'foo', 'bar_baz']), i), rng.randrange(0, 4)) for i in range(rng.choice((26, 33, 34, 41, 48)))]
     clauses = []
-    for _ in range(rng.randrange(1, 9)):
-        name, ar = rng.choice(preds)
+    for ci in range(len(preds) + rng.randrange(0, 6) if big else rng.randrange(1, 9)):
+        name, ar = preds[ci] if big and ci < len(preds) else rng.choice(preds)
         nvars = rng.randrange(2, 8)
         vs = rng.sample(['X', 'Y', 'Z', 'W', 'L', 'Acc', 'Head', 'Tail', 'N1', 'Result', 'A', 'B', '_G', 'Xs'], nvars)
         if rng.random() < 0.12:
@@ -473,7 +476,7 @@ def gen_compile_program(rng):
         if rng.random() < 0.15:
             clauses.append('%s.' % head)
         else:
-            clauses.append('%s :- %s.' % (head, bg.body(rng.randrange(0, 4))))
+            clauses.append('%s :- %s.' % (head, bg.body(rng.randrange(0, 2 if big else 4))))
     return '\n'.join(clauses) + '\n'
 
 
